@@ -109,6 +109,7 @@ class C12(Prop):
         yield {"kind": "masks"}
         yield {"kind": "sequences"}
         yield {"kind": "empty"}
+        yield {"kind": "volume"}
 
     def _drain(self, acc, tag):
         for rec in (self.enc_rec, self.dec_rec):
@@ -318,6 +319,45 @@ class C12(Prop):
                         else:
                             self._encode_rejects(acc, arg, f"duplicate-bearing {form} {list(seq)}")
             acc.sample({"kind": "sequence", "input": ["MONDAY", "MONDAY"], "expected": "rejected"})
+        elif kind == "volume":
+            # thousands of short-lived collections: each is encoded, judged and dropped, so later ones reuse the addresses
+            # (and ids) of earlier ones; now and then one bearing a duplicate
+            import random
+
+            rnd = random.Random(1202)
+            for n in range(6000):
+                names = rnd.sample(NAMES, rnd.randrange(1, 8))
+                members = [D[x] for x in names]
+                if n % 11 == 5 and len(members) >= 1:
+                    bad = tuple(members + [members[0]])
+                    self._encode_rejects(acc, bad, f"duplicate-bearing tuple {[m.name for m in bad]} (after {n} other collections)")
+                    continue
+                arg = tuple(members) if n % 2 else frozenset(members)
+                acc.ev()
+                try:
+                    r = self.tools.weekdays_to_hexadecimal(arg)
+                    if not (isinstance(r, str) and len(r) == 2 and int(r, 16) == mask_of(names)):
+                        acc.violation("encode-wrong-mask", f"{type(arg).__name__} {sorted(names)} (the {n}th short-lived collection of the process) -> {r!r}, want {mask_of(names):02x}",
+                                      {"days": sorted(names)})
+                except Exception as exc:
+                    acc.violation("encode-raised", f"{type(exc).__name__} for valid {type(arg).__name__} {sorted(names)}", {"days": sorted(names)})
+                del arg
+            self.enc_rec.drain()
+            acc.count("short_lived_collections_encoded", 6000)
+            # the same masks as they sit in a listed schedule record: decoded by the schedule parser
+            from aioswitcher.schedule import parser as _parser
+
+            for mask in range(0, 256, 2):
+                acc.ev()
+                rec = (b"%02x" % 3) + b"01" + (b"%02x" % mask) + b"00" * 13
+                want = {n_ for n_, b_ in BITS.items() if mask & b_}
+                try:
+                    got = {m.name for m in _parser.ScheduleParser(rec).get_days()}
+                    if got != want:
+                        acc.violation("decode-wrong-set", f"a schedule record with day mask {mask:02x} parses to {sorted(got)}, want {sorted(want)}", {"mask": mask})
+                except Exception as exc:
+                    acc.violation("decode-raised", f"a schedule record with day mask {mask:02x}: {type(exc).__name__}: {exc}", {"mask": mask})
+            self.dec_rec.drain()
         elif kind == "empty":
             for arg in (set(), frozenset(), [], ()):
                 self._encode_rejects(acc, arg, f"empty {type(arg).__name__}")
